@@ -101,6 +101,7 @@ func (g *docGen) noiseAttrs() string {
 		` onclick="zqh()"`, ` onload="zqh()"`, ` onmouseover="zqh()"`, ` onerror="zqh()"`,
 		` id="nx` + fmt.Sprint(g.rng.Intn(1000)) + `"`, ` class="kx` + fmt.Sprint(g.rng.Intn(1000)) + `"`,
 		` style="color:red"`, ` data-x="1"`, ` data-zq="v"`, ` zqunknown="1"`, ` title="tt"`, ` lang="en"`,
+		` aria-hidden="false"`, // explicitly exposed: as visible as without the attribute
 	}
 	n := g.rng.Intn(4)
 	out := ""
@@ -145,7 +146,9 @@ func (g *docGen) hideAttr() string {
 // blockish: kinds rendered as block-level boxes - text next to them is a separate
 // line in the source whatever the white space, so a bare (unpadded) text is safe there.
 var blockish = map[string]bool{"P": true, "DIV": true, "H": true, "UL": true, "OL": true, "LI": true, "BQ": true, "PRE": true,
-	"DT": true, "LT": true, "FIG": true, "FIGL": true, "TW": true, "LNK": true, "MRK": true, "ROOT": true}
+	"DT": true, "LT": true, "FIG": true, "FIGL": true, "TW": true, "LNK": true, "MRK": true, "ROOT": true,
+	// form controls and other replaced elements are visible boxes of their own: "alpha<input>omega" reads as two words
+	"SKF": true}
 
 // padded renders the words of a text node, without the surrounding space on a side
 // that faces a block-level neighbour (or the edge of a block-level parent): there the
@@ -243,6 +246,13 @@ func (g *docGen) render(n *cnode) string {
 	case "PRE":
 		return g.wrap("pre", "", g.kidsHTML(n))
 	case "HID":
+		switch g.pick("div", "p", "section", "div", "figure", "tweet") {
+		case "figure":
+			// the hidden element is itself one an embed extractor recognises
+			return fmt.Sprintf(`<figure%s%s><img src="/i/m%d.png"><figcaption>%s</figcaption></figure>`, g.hideAttr(), g.noiseAttrs(), g.marker(), g.kidsHTML(n))
+		case "tweet":
+			return fmt.Sprintf(`<blockquote class="twitter-tweet"%s><div>%s</div><a href="https://twitter.com/u/status/%d">t</a></blockquote>`, g.hideAttr(), g.kidsHTML(n), g.marker())
+		}
 		return g.wrap(g.pick("div", "p", "section"), g.hideAttr(), g.kidsHTML(n))
 	case "HIN":
 		return g.wrap(g.pick("span", "b", "em"), g.hideAttr(), g.kidsHTML(n))
@@ -294,9 +304,21 @@ func (g *docGen) render(n *cnode) string {
 			return fmt.Sprintf(`<img src="/i/m%d.png" srcset="/i/m%d-2x.png 2x, /i/m%d-3x.png 3x"%s>`, m, m, m, g.noiseAttrs())
 		case "picture":
 			// pictures may carry more than sources and the image: hidden fallbacks, comments, scripts
-			junk := g.pick("", "", g.words(2), `<span hidden>`+g.words(2)+`</span>`, `<span style="display:none">`+g.words(2)+`</span>`,
-				`<!-- `+g.words(2)+` -->`, `<script>var `+g.words(1)+`;</script>`, `<noscript>`+g.words(2)+`</noscript>`)
-			return fmt.Sprintf(`<picture%s><source srcset="/i/m%d-s.webp"%s>%s<img src="/i/m%d.png"%s></picture>`, g.noiseAttrs(), m, g.noiseAttrs(), junk, m, g.noiseAttrs())
+			junkOf := func() string {
+				return g.pick(g.words(2), `<span hidden>`+g.words(2)+`</span>`, `<span style="display:none">`+g.words(2)+`</span>`,
+					`<!-- `+g.words(2)+` -->`, `<script>var `+g.words(1)+`;</script>`, `<noscript>`+g.words(2)+`</noscript>`, `<style>.`+g.words(1)+` {color:red}</style>`)
+			}
+			// none, one or several extra children, before and after the image, on one line or pretty-printed
+			sep := g.pick("", "", "\n  ")
+			before, after := "", ""
+			for i, k := 0, g.rng.Intn(4); i < k; i++ {
+				if g.rng.Intn(2) == 0 {
+					before += sep + junkOf()
+				} else {
+					after += sep + junkOf()
+				}
+			}
+			return fmt.Sprintf(`<picture%s>%s<source srcset="/i/m%d-s.webp"%s>%s%s<img src="/i/m%d.png"%s>%s%s</picture>`, g.noiseAttrs(), sep, m, g.noiseAttrs(), before, sep, m, g.noiseAttrs(), after, sep)
 		case "lazy":
 			return fmt.Sprintf(`<img data-src="/i/m%d.png"%s>`, m, g.noiseAttrs())
 		case "wiki":
